@@ -44,4 +44,11 @@ func init() {
 		TrustedBase: []string{"go/packages + go/types + go/ssa (x/tools v0.29.0)", "reviewed effect table of standard-library callees in checker/internal/pc/rules_c14.go (mutatedArgs, freshResult)", "Go memory model: data-race freedom follows from absence of shared writable memory"},
 		Rules:       []string{"C14/write-local", "C14/globals", "C14/call", "C14/concurrency", "C14/ambient", "C14/map-order", "C14/nil-opts", "C14/format"},
 	}, ruleC14)
+	register(PropertyMeta{
+		ID:          "C15",
+		Level:       "other",
+		Explanation: "Decided on parser.SplitStatements with path facts: the tokens come from Scan(source) of the very string that is sliced; every bound of every slice of the source is 0, the running cut offset, or Span.Start of a token for which `Kind == TokenSemi` is known on that path and which ranges over those tokens; the cut offset is only ever assigned 0 or Span.End of such a token; the tail source[start:] is taken unconditionally after the loop; every slice is appended. Parse's own splitter tests exactly TokenSemi on the tokens of Scan(query). Hence both splitters cut exactly at the lexer's semicolon tokens and the pieces tile the source. Not decided: that a piece scanned alone yields the same tokens as in context (depends on every look-ahead of the lexer stopping before ';'); this rule would also fire on an equivalent re-implementation of tokenisation inside the splitter, which the property forbids in spirit.",
+		Assumptions: commonAssumptions,
+		Rules:       []string{"C15/provenance", "C15/parse-split"},
+	}, ruleC15)
 }
